@@ -254,6 +254,12 @@ func (c *ClientChannel) FinishSession(ctx context.Context) (*Session, error) {
 	if err != nil {
 		// The session could not be finished gracefully (for instance, the server answer was lost
 		// with the connection). Do not leave the connection open, since the channel is discarded.
+		// (the receiver may only notice that it was stopped at its next I/O poll: it is awaited no longer
+		// than the context allows, closing the transport makes it return at once)
+		c.signalStopReceiver(ctx)
+		if c.transport.Connected() {
+			_ = c.transport.Close()
+		}
 		_ = c.Close()
 		return nil, fmt.Errorf("finish session: %w", err)
 	}
